@@ -49,7 +49,7 @@ class C17(Property):
     ID = "C17"
     SESSIONS = ["s0", "s1"]
     RUNS = {"quick": (1500, 1500), "thorough": (30000, 30000)}
-    MUST_REACH = {"probes": ["tomograms_populated", "crlf_mdoc", "refused_overwrite", "missing_input", "missing_per_tomogram_file_in_batch", "recovery_after_fault"], "faults": ["crash", "enospc", "eio_write", "eio_read", "short_read", "eintr", "open_fail", "toctou_removed"]}
+    MUST_REACH = {"probes": ["tomograms_populated", "crlf_mdoc", "refused_overwrite", "missing_input", "missing_per_tomogram_file_in_batch", "recovery_after_fault", "wedge_list_tilts_unsorted"], "faults": ["crash", "enospc", "eio_write", "eio_read", "short_read", "eintr", "open_fail", "toctou_removed"]}
 
     def config(self, rng, tier, faulty):
         cfg = {
@@ -104,7 +104,7 @@ class C17(Property):
             lost = fpath(rng.pick(tomos), rng.pick(["gctf", "ctffind4", "dose"]))
             return {"op": "env.foreign_delete", "path": lost, "targets": [lost]}
         ops = [("mdoc_open", 3), ("load", 5), ("wedge_sg", 3), ("wedge_sg_batch", 3), ("wedge_em_batch", 2),
-               ("mdoc_func", 2), ("reread", 2), ("sg_to_em", 1)]
+               ("mdoc_func", 2), ("reread", 2), ("sg_to_em", 2), ("foreign_wedge", 1)]
         if handles:
             ops += [("mdoc_sort", 3), ("mdoc_remove", 3), ("mdoc_write", 4)]
         op = rng.weighted(ops)
@@ -151,6 +151,10 @@ class C17(Property):
                     "zshift": ["zshift", "all_zshifts", "number"]}[what]
             return {"op": op, "sess": sess, "t": t, "what": what, "src": rng.pick(srcs), "io": True,
                     "hint": {"read": 2, "any": 4}}
+        if op == "foreign_wedge":
+            k = rng.randrange(1, len(tomos) + 1)
+            return {"op": op, "tomos": rng.sample(tomos, k), "path": rng.pick([OUTS[1], OUTS[4]]),
+                    "acq_order": rng.chance(0.7), "px": 2.0}
         if op == "wedge_sg":
             return {"op": op, "sess": sess, "t": t, "tlt": rng.pick(["tlt", "mdoc"]), "ctf": rng.pick([None, "gctf", "ctffind4"]),
                     "dose": rng.pick([None, "dose", "mdoc"]), "dim": rng.pick(["list", "dim"]),
@@ -884,6 +888,34 @@ class C17(Property):
                 for j in range(3):
                     if not close(arr[i, j], f32(row[j]), rel=1e-6):
                         raise Violation("wedge_em", "file_values", "%s: %s row %d is %r, expected %r" % (what, dst, i, arr[i].tolist(), row))
+
+    def op_foreign_wedge(self, world, step):
+        """a STOPGAP wedge list written by other software, rows per tomogram in acquisition order (tilts not sorted)"""
+        ids = [i for i in step["tomos"] if i in world.model["tomos"]]
+        if not ids:
+            raise Skip()
+        path = self.abspath(world, step["path"])
+        labels = ["tomo_num", "pixelsize", "tomo_x", "tomo_y", "tomo_z", "z_shift", "tilt_angle", "defocus", "exposure",
+                  "voltage", "amp_contrast", "cs"]
+        rows, truth = [], {k: [] for k in labels}
+        for tid in ids:
+            t = world.model["tomos"][tid]
+            order = t["order"] if step["acq_order"] else list(range(len(t["tilts"])))
+            for img in order:
+                vals = [float(tid), step["px"], t["dims"][0], t["dims"][1], t["dims"][2], float(t["zshift"]), t["tilts"][img],
+                        (t["du"][img] + t["dv"][img]) / 2e4, t["prior"][img] + t["exposure"][img], 300.0, 0.07, 2.7]
+                toks = ["%d" % vals[0]] + ["%.6f" % v for v in vals[1:]]
+                rows.append(toks)
+                for k, tok in zip(labels, toks):
+                    truth[k].append(float(tok))
+            if order != sorted(order):
+                world.probes["wedge_list_tilts_unsorted"] += 1
+        text = starmodel.render([{"spec": "data_stopgap_wedgelist", "labels": labels, "rows": rows}],
+                                {"eol": "\n", "numbered": False, "blank_after_labels": 1, "seps": ["  "]})
+        world.fs.put(path, text.encode("ascii"))
+        world.mfs[path] = ("known", {"kind": "wedge_sg", "rows": truth})
+        world.pending_recovery.pop(path, None)
+        return [path]
 
     def op_sg_to_em(self, world, step):
         src = self.abspath(world, step["src"])
